@@ -5,7 +5,9 @@ import json
 CLAIMED = {
  "C01": ("DESIGN.md §5 C01", "every byte string up to N bytes through all five strict front-ends vs an RFC 8259 reference recogniser executed symbolically on the same bytes"),
  "C03": ("DESIGN.md §5 C03", "differential: oj.Parse vs reader variants behind a chunking reader (every split point / composition), tokenizer+Builder, gen.Parser+Simplify, validator, sen.Parser on valid JSON"),
+ "C05": ("DESIGN.md §5 C05", "jp.Expr.Get vs a reference selector over concrete data shapes with symbolic indexes, slice bounds, keys and filter constants, every fragment kind in every position"),
  "C06": ("DESIGN.md §5 C06", "no-panic assertions on every path of the parser harnesses (panics are explicit fault branches of the executor)"),
+ "C11": ("DESIGN.md §5 C11", "Has, First, FirstFound, Locate, Walk, GetNodes, FirstNode and Get on gen data against Get, same symbolic path space as C05"),
  "C09": ("DESIGN.md §5 C09", "reported Line/Column vs the reference's first-offending-byte position on every rejecting path"),
 }
 NA = {
